@@ -132,10 +132,20 @@ func newCuEnv(dir string, set []string) (*cuEnv, error) {
 				return err
 			}
 		}
+		members := map[string]bool{}
+		for _, e := range set {
+			members[e] = true
+		}
 		mk := func(id string, roles []string, bossId *string, teams []string) error {
 			p := &schema.Person{Name: "n-" + id, Roles: roles, Boss: bossId}
 			p.Id = id
-			if err := env.S.People.Create(ctx, p); err != nil {
+			var err error
+			if members[id] { // the elements of the set are the entities with child data
+				err = env.S.Staff.Create(ctx, &schema.Staff{Person: *p, Grade: "g-" + id})
+			} else {
+				err = env.S.People.Create(ctx, p)
+			}
+			if err != nil {
 				return err
 			}
 			return env.S.People.Links.AddLinks(tx, id, teams...)
@@ -145,7 +155,7 @@ func newCuEnv(dir string, set []string) (*cuEnv, error) {
 		}
 		b2 := boss
 		for _, e := range set {
-			if err := mk(e, []string{"r", "q"}, &b2, nil); err != nil {
+			if err := mk(e, []string{"r", "q", "p"}, &b2, nil); err != nil {
 				return err
 			}
 		}
@@ -235,10 +245,11 @@ var cursorKinds = []cursorKind{
 	}},
 	{name: "index.OpenKeyCursor", needsNoE: true, open: func(e *cuEnv, tx *bbolt.Tx, fwd bool) ast.SetCursor {
 		// keys: the roles of P (= the set) plus q and r, which sort after every element: filter them out
-		return ast.NewFilteredCursor(e.S.People.IdxRoles.OpenKeyCursor(tx, fwd), func(v []byte) bool { return string(v) != "q" && string(v) != "r" })
+		return ast.NewFilteredCursor(e.S.People.IdxRoles.OpenKeyCursor(tx, fwd), func(v []byte) bool { return string(v) != "q" && string(v) != "r" && string(v) != "p" })
 	}},
 	{name: "IteratorMatchingAllOf", needsNoE: true, open: func(e *cuEnv, tx *bbolt.Tx, fwd bool) ast.SetCursor {
-		return e.S.People.IteratorMatchingAllOf(e.S.People.IdxRoles, []string{"r", "q"})(tx, fwd)
+		// (three values, given in no particular order)
+		return e.S.People.IteratorMatchingAllOf(e.S.People.IdxRoles, []string{"r", "q", "p"})(tx, fwd)
 	}},
 	{name: "IteratorMatchingAnyOf", needsNoE: true, open: func(e *cuEnv, tx *bbolt.Tx, fwd bool) ast.SetCursor {
 		return e.S.People.IteratorMatchingAnyOf(e.S.People.IdxRoles, []string{"q", "zz"})(tx, fwd)
@@ -268,6 +279,13 @@ var cursorKinds = []cursorKind{
 		sym := e.S.People.GetSymbol(schema.FRep).(boltz.RuntimeEntitySetSymbol)
 		_ = sym.OpenCursor(tx, []byte(decoy))
 		return sym.OpenCursor(tx, []byte(boss))
+	}},
+	{name: "child.IterateIds", needsNoE: true, fwdOnly: true, open: func(e *cuEnv, tx *bbolt.Tx, fwd bool) ast.SetCursor {
+		// the plain child store enumerates the entities that have child data (the elements of the set), not its parent's other rows
+		return e.S.Staff.IterateIds(tx, ast.BoolNodeTrue)
+	}},
+	{name: "child.IterateValidIds", needsNoE: true, fwdOnly: true, open: func(e *cuEnv, tx *bbolt.Tx, fwd bool) ast.SetCursor {
+		return e.S.Staff.IterateValidIds(tx, ast.BoolNodeTrue)
 	}},
 	{name: "store.IterateIds", needsNoE: true, fwdOnly: true, open: func(e *cuEnv, tx *bbolt.Tx, fwd bool) ast.SetCursor {
 		return e.S.Teams.IterateIds(tx, ast.BoolNodeTrue)
